@@ -1141,4 +1141,288 @@ theorem finishBlocks_error_of_conflict (bs : List Block) (b1 b2 : Block) (h1 : b
       rw [e1] at e2
       exact absurd (Option.some.inj e2) hne
 
+/-! ### the grammar: factor lists -/
+
+/-- one factor of the documented grammar: `div` = written after `/` (else after `.` / first),
+a supported symbol, an optional integer exponent printed in canonical decimal form -/
+structure Factor where
+  div : Bool
+  sym : String
+  exp : Option Int
+  deriving Repr, DecidableEq
+
+def Factor.toBlock (f : Factor) : Block :=
+  ⟨if f.div then '/' else '.', f.sym.toList, match f.exp with | none => [] | some e => showIntChars e⟩
+
+/-- the signed exponent a factor denotes -/
+def Factor.signedExp (f : Factor) : Int := if f.div then -(f.exp.getD 1) else f.exp.getD 1
+
+def renderFactors (fs : List Factor) : List Char := renderBlocks (fs.map Factor.toBlock)
+
+theorem factor_wf (f : Factor) (hs : f.sym ∈ allSyms) : f.toBlock.wf := by
+  have h := (symChars_of_syms f.sym hs).1
+  simp only [List.all_eq_true, Bool.and_eq_true] at h
+  refine ⟨?_, fun c hc => (h c hc).1, ?_, ?_⟩
+  · simp only [Factor.toBlock]; split <;> decide
+  · intro c hc
+    simp only [Factor.toBlock] at hc
+    split at hc
+    · simp at hc
+    · exact (expChars_props c (showIntChars_mem _ c hc)).2.1
+  · simp only [Factor.toBlock]
+    split
+    · exact Or.inl rfl
+    · rename_i e _
+      right
+      cases hsn : showIntChars e with
+      | nil => exact absurd hsn (showIntChars_ne_nil e)
+      | cons x r =>
+        refine ⟨x, r, rfl, ?_⟩
+        have := showIntChars_mem e x (by rw [hsn]; simp)
+        simpa using this
+
+theorem factor_clean (f : Factor) (hs : f.sym ∈ allSyms) :
+    uClean [f.toBlock.sep] ∧ uClean f.toBlock.body ∧
+      (∀ c, (c = f.toBlock.sep ∨ c ∈ f.toBlock.body) → isBlank c = false) := by
+  have h := symChars_of_syms f.sym hs
+  have hsep : f.toBlock.sep ∈ sepChars := by simp only [Factor.toBlock]; split <;> decide
+  have hd := uClean_sep _ hsep
+  have hx : uClean f.toBlock.exp ∧ ∀ c ∈ f.toBlock.exp, isBlank c = false := by
+    simp only [Factor.toBlock]
+    split
+    · exact ⟨uClean_nil, by simp⟩
+    · rename_i e _
+      exact ⟨uClean_of_noU _ (fun c hc => (expChars_props c (showIntChars_mem e c hc)).2.2.1),
+        fun c hc => (expChars_props c (showIntChars_mem e c hc)).1⟩
+  refine ⟨⟨hd.1, hd.2.1⟩, uClean_append ⟨h.2.1, h.2.2⟩ hx.1, ?_⟩
+  intro c hc
+  rcases hc with hc | hc
+  · subst hc; exact hd.2.2
+  · simp only [Block.body, List.mem_append] at hc
+    rcases hc with hc | hc
+    · have := h.1
+      simp only [List.all_eq_true, Bool.and_eq_true, Bool.not_eq_true'] at this
+      exact (this c hc).2
+    · exact hx.2 c hc
+
+theorem blockExp_factor (f : Factor) : blockExp f.toBlock = some f.signedExp := by
+  have hd : pyInt puDefaultExp.toList = some 1 := by decide +kernel
+  have hn : puNegSep = '/' := rfl
+  obtain ⟨div, sym, exp⟩ := f
+  cases exp with
+  | none =>
+    cases div <;> simp [blockExp, Factor.toBlock, Factor.signedExp, hd, hn]
+  | some e =>
+    have hne := showIntChars_ne_nil e
+    cases div <;> simp [blockExp, Factor.toBlock, Factor.signedExp, hne, pyInt_showInt, hn]
+
+theorem factor_exp_ok (f : Factor) : (!f.toBlock.exp.isEmpty && (pyInt f.toBlock.exp).isNone) = false := by
+  obtain ⟨div, sym, exp⟩ := f
+  cases exp with
+  | none => simp [Factor.toBlock]
+  | some e => simp [Factor.toBlock, pyInt_showInt]
+
+/-- the second loop on the signed-exponent view of the factors -/
+def addFactors (a : Acc) : List (String × Int) → Res Acc
+  | [] => .ok a
+  | (sym, e) :: r =>
+    match symContrib sym with
+    | .error x => .error x
+    | .ok cs =>
+      match a.addAll e cs with
+      | .error x => .error x
+      | .ok a' => addFactors a' r
+
+def finishFactors (l : List (String × Int)) : Res Units :=
+  match addFactors {} l with
+  | .error e => .error e
+  | .ok acc =>
+    let sys : Sys := ⟨acc.space.getD defaultSpace, acc.time.getD defaultTime, acc.qty.getD defaultQty⟩
+    if sys.valid then .ok ⟨sys, acc.dim⟩ else .error .badUnit
+
+theorem addBlocks_factors (fs : List Factor) : ∀ a : Acc,
+    a.addBlocks (fs.map Factor.toBlock) = addFactors a (fs.map fun f => (f.sym, f.signedExp)) := by
+  induction fs with
+  | nil => intro a; rfl
+  | cons f fs ih =>
+    intro a
+    simp only [List.map_cons, Acc.addBlocks, addFactors, Acc.addBlock, blockExp_factor]
+    have : String.ofList f.toBlock.sym = f.sym := by simp [Factor.toBlock]
+    rw [this]
+    cases symContrib f.sym with
+    | error x => rfl
+    | ok cs =>
+      simp only []
+      cases a.addAll f.signedExp cs with
+      | error x => rfl
+      | ok a' => exact ih a'
+
+/-- **reading**: text written from a factor list of the grammar is read back as exactly those factors
+(symbol and signed exponent of each), and the result depends on nothing else -/
+theorem parse_renderFactors (f : Factor) (fs : List Factor) (hdiv : f.div = false)
+    (hs : ∀ g ∈ f :: fs, g.sym ∈ allSyms) :
+    parseUnitsChars (renderFactors (f :: fs)) = finishFactors ((f :: fs).map fun g => (g.sym, g.signedExp)) := by
+  have hcl : uClean (renderFactors (f :: fs)) := by
+    apply uClean_renderBlocks
+    intro b hb
+    simp only [List.mem_map] at hb
+    obtain ⟨g, hg, rfl⟩ := hb
+    exact ⟨(factor_clean g (hs g hg)).1, (factor_clean g (hs g hg)).2.1⟩
+  have hnb : ∀ c ∈ renderFactors (f :: fs), isBlank c = false := by
+    intro c hc
+    obtain ⟨b, hb, hcb⟩ := mem_renderBlocks hc
+    simp only [List.mem_map] at hb
+    obtain ⟨g, hg, rfl⟩ := hb
+    exact (factor_clean g (hs g hg)).2.2 c hcb
+  have hne : renderFactors (f :: fs) ≠ [] := by
+    have := syms_nonempty f.sym (hs f (by simp))
+    simp only [renderFactors, List.map_cons, renderBlocks, Block.body, Factor.toBlock]
+    intro h
+    simp only [List.append_eq_nil_iff] at h
+    exact this h.1.1
+  rw [parseUnitsChars, prepUnits_id _ hcl.1 hnb]
+  have hsep : f.toBlock.sep = puFirstBlockSep := by simp [Factor.toBlock, hdiv]; rfl
+  simp only [renderFactors, List.map_cons] at hne hnb ⊢
+  rw [parseUnitsCore_render f.toBlock (fs.map Factor.toBlock) (factor_wf f (hs f (by simp)))
+    (by intro x hx; simp only [List.mem_map] at hx; obtain ⟨g, hg, rfl⟩ := hx; exact factor_wf g (hs g (by simp [hg])))
+    hsep hne hnb]
+  have hchk : (f.toBlock :: fs.map Factor.toBlock).any (fun b => !b.exp.isEmpty && (pyInt b.exp).isNone) = false := by
+    rw [List.any_eq_false]
+    intro x hx
+    have : ∃ g, x = Factor.toBlock g := by
+      simp only [List.mem_cons, List.mem_map] at hx
+      rcases hx with hx | ⟨g, _, hg⟩
+      · exact ⟨f, hx⟩
+      · exact ⟨g, hg.symm⟩
+    obtain ⟨g, rfl⟩ := this
+    rw [factor_exp_ok]; simp
+  have hab := addBlocks_factors (f :: fs) {}
+  simp only [List.map_cons] at hab
+  simp only [finishBlocks, hchk, Bool.false_eq_true, if_false, hab, finishFactors]
+
+/-! ### the dimension a factor list denotes -/
+
+theorem Dim.ext' {a b : Dim} (h1 : a.space = b.space) (h2 : a.time = b.time) (h3 : a.qty = b.qty) : a = b := by
+  cases a; cases b; simp_all
+
+theorem Dim.add_assoc' (a b c : Dim) : (a.add b).add c = a.add (b.add c) :=
+  Dim.ext' (by simp [Dim.add, Int.add_assoc]) (by simp [Dim.add, Int.add_assoc]) (by simp [Dim.add, Int.add_assoc])
+
+theorem Dim.add_comm' (a b : Dim) : a.add b = b.add a :=
+  Dim.ext' (by simp [Dim.add, Int.add_comm]) (by simp [Dim.add, Int.add_comm]) (by simp [Dim.add, Int.add_comm])
+
+theorem Dim.add_zero' (a : Dim) : a.add Dim.zero = a := Dim.ext' (by simp [Dim.add, Dim.zero]) (by simp [Dim.add, Dim.zero]) (by simp [Dim.add, Dim.zero])
+theorem Dim.zero_add' (a : Dim) : Dim.zero.add a = a := Dim.ext' (by simp [Dim.add, Dim.zero]) (by simp [Dim.add, Dim.zero]) (by simp [Dim.add, Dim.zero])
+
+def fieldDim (f : String) (e : Int) : Dim :=
+  if f == "space" then ⟨e, 0, 0⟩ else if f == "time" then ⟨0, e, 0⟩ else if f == "quantity" then ⟨0, 0, e⟩ else Dim.zero
+
+def contribDim (e : Int) : List (String × String × Int) → Dim
+  | [] => Dim.zero
+  | c :: r => (fieldDim c.1 (e * c.2.2)).add (contribDim e r)
+
+theorem add_ok_dim {a a' : Acc} {f su : String} {e : Int} (h : a.add f su e = .ok a') :
+    a'.dim = a.dim.add (fieldDim f e) := by
+  unfold Acc.add at h
+  split at h
+  · rename_i hf
+    split at h
+    · cases h; simp [fieldDim, hf, Dim.add]
+    · cases h
+  · rename_i hf
+    split at h
+    · rename_i hf2
+      split at h
+      · cases h; simp [fieldDim, hf, hf2, Dim.add]
+      · cases h
+    · rename_i hf2
+      split at h
+      · rename_i hf3
+        split at h
+        · cases h; simp [fieldDim, hf, hf2, hf3, Dim.add]
+        · cases h
+      · cases h
+
+theorem addAll_dim {e : Int} : ∀ (cs : List (String × String × Int)) {a a' : Acc}, a.addAll e cs = .ok a' →
+    a'.dim = a.dim.add (contribDim e cs) := by
+  intro cs
+  induction cs with
+  | nil => intro a a' h; cases h; simp [contribDim, Dim.add_zero']
+  | cons c cs ih =>
+    intro a a' h
+    obtain ⟨f, su, m⟩ := c
+    simp only [Acc.addAll] at h
+    cases h1 : a.add f su (e * m) with
+    | error x => rw [h1] at h; cases h
+    | ok a1 =>
+      rw [h1] at h
+      rw [ih h, add_ok_dim h1, Dim.add_assoc']
+      rfl
+
+/-- dimension of one unit of a symbol, as the `addunit` calls define it -/
+def symDimOf (s : String) : Option Dim :=
+  match symContrib s with
+  | .ok cs => some (contribDim 1 cs)
+  | .error _ => none
+
+theorem contribDim_smul (e : Int) (cs : List (String × String × Int)) :
+    contribDim e cs = Dim.smul e (contribDim 1 cs) := by
+  induction cs with
+  | nil => simp [contribDim, Dim.smul, Dim.zero]
+  | cons c cs ih =>
+    simp only [contribDim, ih]
+    apply Dim.ext' <;> simp only [Dim.add, Dim.smul, fieldDim] <;> (repeat' split) <;>
+      simp [Dim.zero, Int.mul_add]
+
+/-- the dimension denoted by a list of (symbol, signed exponent) -/
+def factorsDim : List (String × Int) → Dim
+  | [] => Dim.zero
+  | (sym, e) :: r => (Dim.smul e ((symDimOf sym).getD Dim.zero)).add (factorsDim r)
+
+theorem addFactors_dim : ∀ (l : List (String × Int)) {a a' : Acc}, addFactors a l = .ok a' →
+    a'.dim = a.dim.add (factorsDim l) := by
+  intro l
+  induction l with
+  | nil => intro a a' h; cases h; simp [factorsDim, Dim.add_zero']
+  | cons p r ih =>
+    intro a a' h
+    obtain ⟨sym, e⟩ := p
+    simp only [addFactors] at h
+    cases hc : symContrib sym with
+    | error x => rw [hc] at h; cases h
+    | ok cs =>
+      rw [hc] at h
+      simp only [] at h
+      cases h1 : a.addAll e cs with
+      | error x => rw [h1] at h; cases h
+      | ok a1 =>
+        rw [h1] at h
+        simp only [] at h
+        rw [ih h, addAll_dim cs h1, Dim.add_assoc', contribDim_smul]
+        simp [factorsDim, symDimOf, hc]
+
+theorem finishFactors_dim {l : List (String × Int)} {u : Units} (h : finishFactors l = .ok u) :
+    u.dim = factorsDim l := by
+  unfold finishFactors at h
+  cases hc : addFactors {} l with
+  | error x => rw [hc] at h; cases h
+  | ok acc =>
+    rw [hc] at h
+    simp only [] at h
+    split at h
+    · cases h
+      rw [addFactors_dim l hc]
+      exact Dim.zero_add' _
+    · cases h
+
+theorem factorsDim_perm {l1 l2 : List (String × Int)} (h : l1.Perm l2) : factorsDim l1 = factorsDim l2 := by
+  induction h with
+  | nil => rfl
+  | cons x _ ih => obtain ⟨s, e⟩ := x; simp only [factorsDim, ih]
+  | swap x y l =>
+    obtain ⟨s, e⟩ := x; obtain ⟨s', e'⟩ := y
+    simp only [factorsDim]
+    rw [← Dim.add_assoc', ← Dim.add_assoc', Dim.add_comm' (Dim.smul e' _)]
+  | trans _ _ ih1 ih2 => rw [ih1, ih2]
+
 end Strengths
